@@ -55,6 +55,19 @@ class ForsysCrash(Exception):
         self.kind = type(exc).__name__
 
 
+class Malformed(Exception):
+    """A forsys result object does not have the documented shape (raised by harness accessors, reported as a
+    violation by run_case)."""
+
+
+def mesh_of(fsys):
+    """The TimeSeries of a ForSys object built from two or more frames."""
+    mesh = getattr(fsys, "mesh", None)
+    if not hasattr(mesh, "mapping") or not isinstance(mesh.mapping, dict):
+        raise Malformed(f"ForSys built from {len(fsys.frames)} frames carries no TimeSeries (mesh={str(mesh)[:40]!r})")
+    return mesh
+
+
 def _innermost_repo_frame(tb):
     where = "?"
     for fs in traceback.extract_tb(tb):
@@ -135,7 +148,7 @@ class Ctx:
             self.violations.append({"property": self.prop, "sub": sub, "replay": None})
             return
         h = fingerprint([sub, kind, params])
-        d = os.path.join(VERIF, "replay", self.prop)
+        d = os.path.join(os.environ.get("VERIF_REPLAY_DIR") or os.path.join(VERIF, "replay"), self.prop)
         os.makedirs(d, exist_ok=True)
         path = os.path.join(d, f"{h}.json")
         with open(path, "w") as f:
@@ -257,6 +270,15 @@ def run_case(ctx, check_case, params, label=""):
     except Exception as e:
         if type(e).__name__ == "Degenerate":
             ctx.skip("generator: degenerate geometry rejected")
+            return
+        if isinstance(e, Malformed):
+            ctx.violation("malformed-result", params, observed=str(e), expected="documented result structure", kind=label)
+            return
+        if isinstance(e, FloatingPointError):
+            # forsys runs numpy with every floating-point error raised, and so does the harness arithmetic on what
+            # forsys returned: an overflow / invalid operation there means the returned numbers are absurd or non-finite
+            ctx.violation("non-finite-or-overflowing-result", params, observed=f"{type(e).__name__}: {e}",
+                          expected="finite results of ordinary magnitude", kind=label)
             return
         if not isinstance(e, ForsysCrash):
             raise
